@@ -27,6 +27,9 @@ pub struct ConcSc {
     pub tries: u32,
     /// recorded scheduling decisions (task ids); replay forces them
     pub forced: Option<Vec<u32>>,
+    /// all nodes are also members of one container shared (read-only) by the tasks
+    #[serde(default)]
+    pub shared_container: bool,
 }
 
 /// `only_invariant`: report only the quiescent C01/C02 invariant (used by the
@@ -121,7 +124,7 @@ where
     F::Graph: Send + Sync,
 {
     hashseam::set_seed(sc.hash_seed);
-    let world = World::<F>::new(&sc.prios, false);
+    let world = World::<F>::new(&sc.prios, sc.shared_container);
     world.seed_edges(&sc.initial);
     let mut m0 = Model::new(F::DIRECTED, sc.prios.len());
     for (u, v, e) in &sc.initial {
@@ -422,6 +425,7 @@ impl Engine for Conc {
             2 => cfg.w = [20, 10, 10, 5, 35, 10, 10], // reader-heavy
             _ => {}
         }
+        let shared_container = rng.chance(1, 3);
         let mut tasks = Vec::new();
         for _ in 0..nt {
             let k = rng.range(1, max_ops);
@@ -429,7 +433,11 @@ impl Engine for Conc {
             for _ in 0..k {
                 // tasks are generated against the initial state: concurrent histories have no
                 // single "current" state to bias by
-                let mut op = gen::gen_op(rng, &m, &mut next_edge, &cfg);
+                let mut op = if shared_container && rng.chance(1, 8) {
+                    Op::GView { kind: rng.below(9) as u8 }
+                } else {
+                    gen::gen_op(rng, &m, &mut next_edge, &cfg)
+                };
                 if let Op::Search { spec, .. } = &mut op {
                     if !spec.valid(directed) {
                         spec.transpose = false;
@@ -461,6 +469,7 @@ impl Engine for Conc {
             sched_seed: rng.next_u64(),
             tries: 1,
             forced: None,
+            shared_container,
         }
     }
 
@@ -534,6 +543,11 @@ impl Engine for Conc {
                 }
             }
         }
+        if sc.shared_container && !sc.tasks.iter().flatten().any(|o| matches!(o, Op::GView { .. })) {
+            let mut c = sc.clone();
+            c.shared_container = false;
+            out.push(fresh(c));
+        }
         // schedule: fewer preemptions
         if let Some(f) = &sc.forced {
             for i in 1..f.len() {
@@ -586,5 +600,6 @@ impl Engine for Conc {
             + sc.forced.as_ref().map(|f| switches(f)).unwrap_or(0)
             + sc.policy.writer_pref as usize
             + sc.policy.preempt_in_cs as usize * 2
+            + sc.shared_container as usize
     }
 }
